@@ -18,7 +18,7 @@ func init() {
 func checkC05(c *Ctx) {
 	r051(c)
 	r052(c)
-	r053(c)
+	r053(c, "R05.3 check-covers-all-pairs")
 	r054(c)
 }
 
@@ -154,8 +154,7 @@ func r052(c *Ctx) {
 	c.ob(rule, "RemoveService/removes-under-write-lock", rs.Pos(), okR, true, "")
 }
 
-func r053(c *Ctx) {
-	const rule = "R05.3 check-covers-all-pairs"
+func r053(c *Ctx, rule string) {
 	c.floor(rule, 4)
 	fn := c.method("ServiceMap", "CheckAvailability")
 	rsm := c.field("ServiceMap", "requestServiceMap")
